@@ -4,7 +4,7 @@ import re
 
 from ..core import AnalysisError, dotted, walk_no_nested
 from ..cfg import CFG, cond_guards
-from ..util import calls_in, local_defs, depends_on, const_val, NOVAL, names_in
+from ..util import calls_in, local_defs, depends_on, const_val, NOVAL, names_in, truth_under
 
 ASSUMPTIONS = [
     '`git config <key> <value>` replaces a single-valued key idempotently; `--unset`/`--remove-section` act only on the named key/section (git semantics, trusted)',
@@ -82,7 +82,8 @@ def run(ctx):
                 ctx.inst('R18.1', fid, cons, True, 'own key %s' % key, c)
             elif key in SHARED_SELECTORS:
                 guards = cond_guards(g, st)
-                ok = any(pol and 'set_default' in names_in(t) for t, pol in guards) and val == 'nbdime'
+                ok = any(truth_under(t, pol, lambda e: isinstance(e, ast.Name) and e.id == 'set_default') is True
+                         for t, pol in guards) and val == 'nbdime'
                 ctx.inst('R18.1', fid, cons, ok,
                          'shared selector %s written only under set_default, value nbdime' % key if ok else
                          'shared selector %s is written without the set_default guard (overwrites the user\'s tool)' % key, c)
